@@ -204,6 +204,9 @@ def run(ctx):
             # the same postulates under parallel evaluation with a time budget that never fires
             c["inference_kwargs"] = rng.choice([{"multi_inference": True, "inference_timeout": 600}, {"multi_inference": True, "total_timeout": 900},
                                                 {"multi_inference": True}])
+        elif len(jobs) % 3 == 1:
+            # the base's own conditionals are asked with the base's own Conditional objects (direct inference through Queries(bb))
+            c["inference_kwargs"] = {"_own": True}
         jobs.append((c, cfgs))
         metas.append(inst)
     results = rel.pmap(ctx, rel.eval_small, jobs)
